@@ -12,7 +12,8 @@
 
   Python's builtin `sum` (compensated for Python floats since 3.12, plain left fold for numpy
   scalars) and `np.mean` are modelled as a left fold from 0; `np.random.choice`'s own validation
-  of `p` is modelled by its non-negativity test only (the vector sums to one by construction).
+  of `p` is modelled by its two tests: non-negative (never triggered since the code clamps at 0) and
+  `|sum(p) - 1| <= 2^-26` (can trigger when a negative entry was clamped; numpy sums with Kahan's method).
   dtype is not modelled: cells are values of the carrier (the check keeps integer-dtype data away
   from the two arithmetic injectors, whose results numpy truncates back to integers).
 
@@ -225,10 +226,19 @@ def groupsOf (rows : List (List α)) (f t c : Nat) : List (α × List Nat) :=
 def rawP (full : List (α × α)) (groups : List (α × List Nat)) : List α :=
   groups.flatMap (fun g => List.replicate g.2.length (probOf full g.1 / ((g.2.length : Nat) : α)))
 
+/-- `atol` of the acceptance test: `1e-12` (at `Float`, `1 / 10^12` is the double nearest to `1e-12`) -/
+def tol : α := one / ((1000000000000 : Nat) : α)
+
+/-- `total > 1.0 and not np.isclose(total, 1.0, rtol=0, atol=1e-12)`: reject iff the specified probabilities
+    sum to more than one and `|sum - 1| > 1e-12` -/
+def rejectSum (s : α) : Prop := one < s ∧ tol < absOf (s - one)
+
+instance (s : α) : Decidable (rejectSum s) := inferInstanceAs (Decidable (_ ∧ _))
+
 def probPlan (rows : List (List α)) (f t c : Nat) (cp : List (α × α)) : Except Err (Plan α) :=
   let classes := unique (colOf c rows)
   let undef := classes.filter (fun k => !keyIn cp k)
-  if one < sumL (cp.map (·.2)) then .error .value
+  if rejectSum (sumL (cp.map (·.2))) then .error .value
   else if !sameSet classes (cp.map (·.1) ++ undef) then .error .value
   else
     let groups := groupsOf rows f t c
@@ -237,7 +247,8 @@ def probPlan (rows : List (List α)) (f t c : Nat) (cp : List (α × α)) : Exce
     if grouped.isEmpty then .ok ⟨[], []⟩
     else
       let leftover := (one - sumL p0) / ((p0.length : Nat) : α)
-      .ok ⟨grouped, p0.map (· + leftover)⟩
+      -- `max(p + p_leftover, 0.0)`: the first argument unless the second is greater
+      .ok ⟨grouped, p0.map (fun x => pyMax (x + leftover) zero)⟩
 
 /-- `ret[from:to] = ret[sample_idxs]` (right-hand side is a copy of the old rows) -/
 def resampleRows (rows : List (List α)) (f t : Nat) (sample : List Nat) : List (List α) :=
@@ -245,6 +256,9 @@ def resampleRows (rows : List (List α)) (f t : Nat) (sample : List Nat) : List 
     match (sample[k]?).bind (rows[·]?) with
     | some r' => r'
     | none => r) rows
+
+/-- `np.random.choice` rejects `p` when `|sum(p) - 1| > sqrt(eps) = 2^-26` -/
+def choiceTol : α := one / ((67108864 : Nat) : α)
 
 def labelProb (d : Data α) (f t : Nat) (col : Lbl) (cp : List (α × α)) (sample : List Nat) :
     Except Err (Data α × Plan α) :=
@@ -258,6 +272,7 @@ def labelProb (d : Data α) (f t : Nat) (col : Lbl) (cp : List (α × α)) (samp
         -- empty window: nothing is drawn, the data is returned unchanged
         if sample.isEmpty then .ok (d, plan) else .error .badDraws
       else if plan.p.any (· < zero) then .error .value       -- raised by `np.random.choice`
+      else if choiceTol < absOf (sumL plan.p - one) then .error .value   -- "probabilities do not sum to 1"
       else if sample.length ≠ t - f ∨ !sample.all (fun s => plan.grouped.contains s) then .error .badDraws
       else .ok ({ d with rows := resampleRows d.rows f t sample }, plan)
 
